@@ -269,6 +269,13 @@ class Alg:
             b = self.canon(self.eng.subst(body, sub))
             if len(cl) == 1 and b == ("E", cl[0]) and cl[0][0] != "range":
                 return cl[0]
+            if b[0] == "E" and not self.has_EI(b[1]):
+                # identity map written with an index ( `(0..N).map(|i| xs[i])`, fill loops): the vector itself,
+                # provided the index range is the whole vector
+                known = self.eng.lens.get(b[1])
+                whole = (known is not None and (known == n or str(known) == str(n))) or (known is None and isinstance(n, str))
+                if whole:
+                    return b[1]
             return ("V", b, n)
         return self.canon_leaf(t)
 
